@@ -206,6 +206,55 @@ func c14RunLarge(c c14Case, st *fw.Stats) []fw.Viol {
 	case 2:
 		hist = append(hist, step{"del", N / 2}, step{"set", N}, step{"get", 0}, step{"set", N + 1}, step{"get", 0}, step{"get", 1}, step{"get", N / 2})
 	}
+	if c.Keys == 4 {
+		// the largest capacities (65535 is the most the router option can ask for): N+2 distinct keys are stored one by
+		// one, once directly and once as requests on a router; the expectations are arithmetic (length = min(i, N); the
+		// oldest key is gone exactly when the (N+1)-th arrives, the second oldest when the (N+2)-th does)
+		impl := rux.NewCachedRoutes(N)
+		var r *rux.Router
+		if N <= 65535 {
+			r = rux.New(rux.CachingWithNum(uint16(N)))
+			r.GET("/p/{id}", func(*rux.Context) {})
+		}
+		for i := 0; i < N+2; i++ {
+			st.Evals++
+			st.Transitions++
+			impl.Set(key(i), c14Routes[(i%8)*2])
+			want := i + 1
+			if want > N {
+				want = N
+			}
+			if impl.Len() != want {
+				addViol("lru:large:len", fmt.Sprintf("capacity=%d: after storing %d distinct keys Len() = %d, a bounded LRU holds %d", N, i+1, impl.Len(), want))
+				return viols
+			}
+			if r != nil {
+				if m, _, _ := r.Match("GET", fmt.Sprintf("/p/%d", i)); m == nil {
+					addViol("router:large:match", fmt.Sprintf("CachingWithNum(%d): GET /p/%d matched no route", N, i))
+					return viols
+				}
+				if got := r.VerifCache().Len(); got != want {
+					addViol("router:large:len", fmt.Sprintf("CachingWithNum(%d): after resolving %d distinct dynamic paths the cache holds %d entries, a bounded LRU of that capacity holds %d", N, i+1, got, want))
+					return viols
+				}
+			}
+		}
+		// after N+2 insertions: the two oldest keys are gone, the third oldest and the newest are there
+		_, has0 := impl.Get(key(0))
+		_, has1 := impl.Get(key(1))
+		_, has2 := impl.Get(key(2))
+		_, hasL := impl.Get(key(N + 1))
+		if has0 || has1 || !has2 || !hasL {
+			addViol("lru:large:eviction", fmt.Sprintf("capacity=%d: after storing %d distinct keys: k0 present=%v (want false), k1 present=%v (want false), k2 present=%v (want true), the newest present=%v (want true)", N, N+2, has0, has1, has2, hasL))
+		}
+		keys, _, ll, ml, _ := impl.VerifSnapshot()
+		if ll != N || ml != N || len(keys) != N {
+			addViol("lru:invariant:capacity", fmt.Sprintf("capacity=%d: after storing %d distinct keys the list holds %d entries and the index %d", N, N+2, ll, ml))
+		}
+		st.Inc("evictions", 2)
+		st.Nontrivial++
+		return viols
+	}
 	if c.Keys == 3 {
 		// router clause: N+2 distinct paths requested on a router whose cache was configured with capacity N; every path
 		// is resolved once, its entry must be there until N further distinct paths were resolved
@@ -389,7 +438,7 @@ var c14Spec = fw.Spec[c14Case]{
 	ID:         "C14",
 	Level:      "model_checking",
 	StateGraph: true,
-	Rule: "explicit-state search to fix-point: every reachable state of the real cachedRoutes (canonical form = keys and value ids in recency order, read through the verif hook) x every operation of {Set(k,v0|v1),Get(k),Has(k),Delete(k),Len()} compared with refmodel.LRU; capacities {8,64,255,256,257,300,1000,1024,4097}: four fixed fill-past-capacity histories each (plain, refresh the oldest first, delete one first, as requests on a router configured with that capacity) compared with the model after every operation; " +
+	Rule: "explicit-state search to fix-point: every reachable state of the real cachedRoutes (canonical form = keys and value ids in recency order, read through the verif hook) x every operation of {Set(k,v0|v1),Get(k),Has(k),Delete(k),Len()} compared with refmodel.LRU; capacities {8,64,255,256,257,300,1000,1024,4097}: four fixed fill-past-capacity histories each (plain, refresh the oldest first, delete one first, as requests on a router configured with that capacity) compared with the model after every operation; capacities {65534,65535,65536,70000}: N+2 distinct keys stored one by one (directly, and as requests on a router where the option allows the capacity) against arithmetic expectations; " +
 		"router clause: every request history (BFS to fix-point over cache states) on caching routers; a state is non-trivial/distinct when its canonical form was not seen before",
 	Assume: []string{
 		"cache states are observed through the build-tag-guarded read-only accessor VerifSnapshot",
@@ -419,6 +468,9 @@ var c14Spec = fw.Spec[c14Case]{
 			for h := 0; h < 4; h++ {
 				emit(c14Case{Kind: "lru-large", Cap: n, Keys: h})
 			}
+		}
+		for _, n := range []int{65534, 65535, 65536, 70000} {
+			emit(c14Case{Kind: "lru-large", Cap: n, Keys: 4})
 		}
 		c14GenRouter(tier, emit)
 	},
